@@ -77,6 +77,23 @@ def fed_query(rng, single=False):
     return text, ordered, g.features
 
 
+def const_first(rng):
+    """Joins across integrations whose WHERE compares value-first (`2 >= p.a`), with every operator, on either table."""
+    r = rng
+    t1, t2 = r.choice([('t1', 't2'), ('t2', 't1'), ('t1', 't3'), ('t3', 't2')])
+    c1, c2 = ('x' if t1 == 't3' else 'a'), ('x' if t2 == 't3' else 'a')
+    frm = f'{HOME[t1]}.{t1} AS p {r.choice(["JOIN", "LEFT JOIN", "INNER JOIN"])} {HOME[t2]}.{t2} AS q ON p.id = q.id'
+    ops = ['<', '<=', '>', '>=', '=', '!=', '<>']
+    conds = [f'{r.choice([0, 1, 2, 3])} {r.choice(ops)} {r.choice([("p", c1), ("q", c2), ("p", "id")])[0]}.{r.choice([c1 if True else c2, "id"])}']
+    al, c = r.choice([('p', c1), ('q', c2)])
+    conds = [f'{r.choice([0, 1, 2, 3])} {r.choice(ops)} {al}.{r.choice([c, "id"])}']
+    if r.random() < 0.5:
+        al2, c_2 = r.choice([('p', c1), ('q', c2)])
+        conds.append(r.choice([f'{al2}.{c_2} {r.choice(ops)} {r.choice([1, 2])}', f'{r.choice([1, 2, 3])} {r.choice(ops)} {al2}.id']))
+    r.shuffle(conds)
+    return f'SELECT p.id AS id_p, p.{c1} AS v_p, q.id AS id_q, q.{c2} AS v_q FROM {frm} WHERE ' + ' AND '.join(conds)
+
+
 def isnull_outer(rng):
     """Outer joins across integrations with IS [NOT] NULL tests on either side in WHERE (the anti-join idiom): a test on the
     NULL-extended side must see the joined row, not the table's own rows."""
